@@ -239,9 +239,15 @@ Qed.
 Lemma partial_app_partial : forall p l, is_partial_line p = true -> is_partial_line l = true -> is_partial_line (p ++ l) = true.
 Proof.
   intros p l Hp Hl. destruct p as [|c p]; [discriminate|]. destruct l as [|d l]; [discriminate|].
-  cbn [is_partial_line] in *. cbn [app]. change (c :: p ++ d :: l) with ((c :: p) ++ (d :: l)).
-  rewrite forallb_app, Hp, Hl. reflexivity.
+  unfold is_partial_line in *. cbn [app]. apply forallb_forall. intros x Hx.
+  rewrite forallb_forall in Hp, Hl. change (In x ((c :: p) ++ (d :: l))) in Hx.
+  apply in_app_or in Hx as [Hx|Hx]; [now apply Hp | now apply Hl].
 Qed.
+
+Lemma concat_rest_cons : forall l ls lst,
+  concat_rest (l :: ls) lst =
+  if is_nl_ended l then (let (ys, lst') := concat_rest ls lst in (l :: ys, lst')) else concat_rest ls (Some l).
+Proof. reflexivity. Qed.
 
 (** the non-first lines of a non-last part *)
 Lemma concat_rest_wf : forall ls lst, wf_lines ls = true ->
@@ -256,7 +262,7 @@ Proof.
       * left. cbn [concat_rest]. rewrite (full_is_nl_ended l H). split; [reflexivity | repeat constructor; exact H].
       * right. exists [], l. cbn [concat_rest app]. rewrite (partial_not_nl_ended l H). repeat split; auto.
     + change (wf_lines (l :: l2 :: ls)) with (is_full_line l && wf_lines (l2 :: ls)) in H.
-      apply andb_true_iff in H as [Hl H]. cbn [concat_rest]. rewrite (full_is_nl_ended l Hl).
+      apply andb_true_iff in H as [Hl H]. rewrite concat_rest_cons. rewrite (full_is_nl_ended l Hl).
       destruct (IH lst H) as [[E F]|[ys [p [E [Hp [F E2]]]]]].
       * left. rewrite E. split; [reflexivity | constructor; assumption].
       * right. exists (l :: ys), p. rewrite E2. rewrite E. repeat split; auto.
@@ -303,9 +309,11 @@ Proof.
     + change (wf_lines (f1 :: l :: r1')) with (is_full_line f1 && wf_lines (l :: r1')) in H1.
       apply andb_true_iff in H1 as [Hf Hr]. rewrite (full_is_nl_ended f1 Hf).
       destruct (concat_rest_wf (l :: r1') None Hr) as [[E F]|[ys [p [E [Hp [F E2]]]]]].
-      * rewrite E. rewrite Tail0. cbn [concat]. rewrite <- app_assoc. rewrite lines_lf_app_full by exact Hf.
+      * rewrite E. rewrite Tail0. change (concat (f1 :: l :: r1')) with (f1 ++ concat (l :: r1')).
+        rewrite <- app_assoc. rewrite lines_lf_app_full by exact Hf.
         cbn [app]. f_equal. rewrite lines_lf_full_prefix by exact F. reflexivity.
-      * rewrite E2. rewrite (Tail p Hp). cbn [concat]. rewrite <- app_assoc. rewrite lines_lf_app_full by exact Hf.
+      * rewrite E2. rewrite (Tail p Hp). change (concat (f1 :: l :: r1')) with (f1 ++ concat (l :: r1')).
+        rewrite <- app_assoc. rewrite (lines_lf_app_full f1) by exact Hf.
         cbn [app]. f_equal. rewrite E. rewrite concat_app. cbn [concat]. rewrite app_nil_r, <- app_assoc.
         rewrite lines_lf_full_prefix by exact F. reflexivity.
 Qed.
@@ -482,7 +490,7 @@ Proof.
               unfold via_frozen, cached_get. rewrite Hz, Ez. cbn [obind]. rewrite Vw.
               exists [e], (SRun g (cs_set_fz st z) u). split; [reflexivity|]. split.
               { cbn [Inv]. split; [exact Hu|]. split; [exact Hg|]. destruct Hs as [Hp' _]. split; [exact Hp' | right; exists z; auto]. }
-              split; [apply skel_eq_refl|]. split; [unfold text_of; cbn; now rewrite app_nil_r | discriminate].
+              split; [cbn [skel_eq]; auto using skel_eq_refl|]. split; [unfold text_of; cbn; now rewrite app_nil_r | discriminate].
     + pose proof Hs as [[Hp|Hp] _]; rewrite Hp.
       * rewrite E. cbn [run_on]. fold t. rewrite file_of_fd. split; [|split].
         -- rewrite file_lines_ok by exact Ht. exists (SRun g (cs_set_path st t) u'). split; [reflexivity|].
@@ -543,4 +551,455 @@ Proof.
         -- exists (SConcat st p q). fin.
       * rewrite Ewp, Ewq. cbn [oapp]. exists (wp ++ wq), (SConcat st p2 q2). split; [reflexivity|].
         split; [now apply I'|]. split; [cbn; auto|]. split; [exact Ew | intros _; exact Nw].
+Qed.
+
+Lemma s_lines_ok : forall b x, Inv x -> lines_spec b x.
+Proof. intros b x H. apply (views_ok b x H). Qed.
+Lemma s_file_ok : forall b x, Inv x -> file_spec b x.
+Proof. intros b x H. apply (views_ok b x H). Qed.
+Lemma s_write_ok : forall b x, Inv x -> write_spec b x.
+Proof. intros b x H. apply (views_ok b x H). Qed.
+
+Definition str_spec (b : N) (x : src) : Prop :=
+  exists x', s_str b x = (Some (den x), x') /\ Inv x' /\ skel_eq x x'.
+
+Lemma str_via_file_ok : forall b x, Inv x -> read_text (den x) = den x ->
+  exists x', str_via_file b x = (Some (den x), x') /\ Inv x' /\ skel_eq x x'.
+Proof.
+  intros b x H Hr. unfold str_via_file. destruct (s_file_ok b x H) as [x' [E [I S]]]. rewrite E, Hr. eauto.
+Qed.
+
+Lemma s_str_ok : forall b x, Inv x -> str_spec b x.
+Proof.
+  intros b x H. unfold str_spec. pose proof (inv_den_ok x H) as Ot.
+  destruct x as [s|r|out st|f dep path isfz u|f st u|g st u|st p q].
+  - exists (SStr s). cbn [s_str den]. fin.
+  - exists (SFile r). cbn [s_str den]. fin.
+  - cbn [s_str]. destruct (c_isfz st) eqn:Ef.
+    + cbn [Inv] in H. destruct H as [Ho Hs]. cbn [den]. rewrite (read_text_ok out Ho).
+      destruct (via_frozen_ok b out st (prog_write out st) fz_str out Ho Hs (text_of_prog_write out st Ho Hs)) as [st' [E Hs']].
+      { intros z G. apply (good_fz_views out z Ho G). }
+      rewrite E. exists (SProg out st'). fin.
+    + apply str_via_file_ok; [exact H | now apply read_text_ok].
+  - cbn [Inv] in H. destruct H as [Hu [Hf Hp]]. destruct (s_lines_ok b u Hu) as [u' [E [Iu' Su]]].
+    cbn [s_str den]. rewrite E. cbn [option_map].
+    exists (SLines f dep path isfz u'). split; [reflexivity|]. split.
+    + cbn [Inv]. rewrite (skel_eq_den _ _ Su). auto.
+    + cbn. auto.
+  - cbn [Inv] in H. destruct H as [Hu [Hf Hs]]. cbn [s_str den] in *.
+    set (t := concat (f (lines_lf (den u)))) in *.
+    destruct (s_lines_ok b u Hu) as [u' [E [Iu' Su]]].
+    assert (I' : forall st', cs_ok t st' -> Inv (SFilter f st' u')).
+    { intros st' Hs'. cbn [Inv]. rewrite (skel_eq_den _ _ Su). auto. }
+    destruct (c_isfz st) eqn:Ef.
+    + destruct (c_fz st) as [z|] eqn:Hz.
+      * pose proof (frozen_known t st z Hs Hz) as G. destruct (good_fz_views t z Ot G) as [_ [V _]]. rewrite V.
+        exists (SFilter f st u). fin.
+      * rewrite E. cbn [option_map].
+        destruct (via_frozen_ok b t st _ fz_str t Ot Hs (text_of_lines _)) as [st' [E2 Hs']].
+        { intros z G. apply (good_fz_views t z Ot G). }
+        rewrite E2. exists (SFilter f st' u'). split; [reflexivity|]. split; [now apply I' | cbn; auto].
+    + rewrite E. cbn [option_map]. exists (SFilter f st u'). split; [reflexivity|]. split; [now apply I' | cbn; auto].
+  - cbn [s_str]. destruct (c_isfz st) eqn:Ef.
+    + cbn [Inv] in H. destruct H as [Hu [Hg Hs]]. cbn [den] in *. rewrite (den_run g u Hu Hg) in *.
+      set (t := g (den u)) in *.
+      destruct (s_file_ok b u Hu) as [u' [E [Iu' Su]]].
+      assert (I' : forall st', cs_ok t st' -> Inv (SRun g st' u')).
+      { intros st' Hs'. cbn [Inv]. rewrite (skel_eq_den _ _ Su). auto. }
+      destruct (c_fz st) as [z|] eqn:Hz.
+      * pose proof (frozen_known t st z Hs Hz) as G. destruct (good_fz_views t z Ot G) as [_ [V _]]. rewrite V.
+        exists (SRun g st u). fin.
+      * pose proof Hs as [[Hp|Hp] _]; rewrite Hp.
+        -- rewrite E. cbn [run_on]. fold t.
+           destruct (via_frozen_ok b t st _ fz_str t Ot Hs (text_of_fd t)) as [st' [E2 Hs']].
+           { intros z G. apply (good_fz_views t z Ot G). }
+           rewrite E2. exists (SRun g st' u'). split; [reflexivity|]. split; [now apply I' | cbn; auto].
+        -- assert (Ew2 : text_of [WLines (file_lines t)] = t).
+           { rewrite text_of_lines. unfold file_lines. rewrite concat_lines_lf. now apply read_text_ok. }
+           destruct (via_frozen_ok b t st _ fz_str t Ot Hs Ew2) as [st' [E2 Hs']].
+           { intros z G. apply (good_fz_views t z Ot G). }
+           rewrite E2. exists (SRun g st' u). fin.
+    + apply str_via_file_ok; [exact H | now apply read_text_ok].
+  - cbn [Inv] in H. destruct H as [Hp [Hq [Fp [Fq Hs]]]]. cbn [s_str den] in *.
+    set (t := den p ++ den q) in *.
+    destruct (s_lines_ok b p Hp) as [p1 [Elp [Ip1 Sp1]]]. destruct (s_lines_ok b q Hq) as [q1 [Elq [Iq1 Sq1]]].
+    destruct (s_write_ok b p Hp) as [wp [p2 [Ewp [Ip2 [Sp2 [Twp Nwp]]]]]].
+    destruct (s_write_ok b q Hq) as [wq [q2 [Ewq [Iq2 [Sq2 [Twq Nwq]]]]]].
+    assert (I' : forall st' p' q', cs_ok t st' -> Inv p' -> Inv q' -> skel_eq p p' -> skel_eq q q' -> Inv (SConcat st' p' q')).
+    { intros st' p' q' Hs' Ip' Iq' Sp' Sq'. cbn [Inv]. rewrite (skel_eq_den _ _ Sp'), (skel_eq_den _ _ Sq').
+      rewrite (skel_eq_fd_free _ _ Sp'), (skel_eq_fd_free _ _ Sq'). auto. }
+    destruct (c_isfz st) eqn:Ef.
+    + destruct (c_fz st) as [z|] eqn:Hz.
+      * pose proof (frozen_known t st z Hs Hz) as G. destruct (good_fz_views t z Ot G) as [_ [V _]]. rewrite V.
+        exists (SConcat st p q). fin.
+      * rewrite Ewp, Ewq. cbn [oapp].
+        assert (Ew : text_of (wp ++ wq) = t) by (rewrite text_of_app, Twp, Twq; reflexivity).
+        destruct (via_frozen_ok b t st _ fz_str t Ot Hs Ew) as [st' [E2 Hs']].
+        { intros z G. apply (good_fz_views t z Ot G). }
+        rewrite E2. exists (SConcat st' p2 q2). split; [reflexivity|]. split; [now apply I' | cbn; auto].
+    + rewrite Elp, Elq. cbn [olines2 option_map].
+      rewrite concat_lines2_ok by apply wf_lines_lines_lf. rewrite !concat_lines_lf. fold t.
+      exists (SConcat st p1 q1). split; [reflexivity|]. split; [now apply I' | cbn; auto].
+Qed.
+
+Lemma s_dep_ok : forall b x, Inv x -> exists d x', s_dep b x = (Some d, x') /\ Inv x' /\ skel_eq x x'.
+Proof.
+  intros b. induction x as [s|r|out st|f dep path isfz u IH|f st u IH|g st u IH|st p IHp q IHq]; intros H;
+    pose proof (inv_den_ok _ H) as Ot; cbn [Inv] in H.
+  - exists false, (SStr s). cbn [s_dep]. fin.
+  - exists true, (SFile r). cbn [s_dep]. fin.
+  - destruct H as [Ho Hs]. cbn [s_dep]. destruct (c_isfz st) eqn:Ef.
+    + assert (V : forall z, good_fz out z -> exists d, fz_dep z = Some d) by (intros z G; apply (good_fz_views out z Ho G)).
+      unfold via_frozen. destruct Hs as [Hp [Hz|[z [Hz G]]]].
+      * destruct (frozen_from_events b (prog_write out st)) as [z [Ez Gz]];
+          [rewrite (text_of_prog_write out st Ho (conj Hp (or_introl Hz))); now apply text_ok_valid
+          | rewrite (text_of_prog_write out st Ho (conj Hp (or_introl Hz))); now apply read_text_ok |].
+        rewrite (text_of_prog_write out st Ho (conj Hp (or_introl Hz))) in Gz.
+        unfold cached_get. rewrite Hz, Ez. destruct (V z Gz) as [d Vd]. cbn [obind]. rewrite Vd.
+        exists d, (SProg out (cs_set_fz st z)). split; [reflexivity|]. split; [|reflexivity].
+        cbn [Inv]. split; [exact Ho|]. split; [exact Hp | right; exists z; auto].
+      * unfold cached_get. rewrite Hz. destruct (V z G) as [d Vd]. cbn [obind]. rewrite Vd.
+        exists d, (SProg out st). split; [reflexivity|]. split; [|reflexivity].
+        cbn [Inv]. split; [exact Ho|]. split; [exact Hp | right; exists z; auto].
+    + exists true, (SProg out st). fin.
+  - destruct H as [Hu [Hf Hp]]. cbn [s_dep]. destruct dep.
+    + exists true, (SLines f true path isfz u). fin.
+    + destruct (IH Hu) as [d [u' [E [Iu' Su]]]]. rewrite E.
+      exists d, (SLines f false path isfz u'). split; [reflexivity|]. split.
+      * cbn [Inv]. rewrite (skel_eq_den _ _ Su). auto.
+      * cbn. auto.
+  - destruct H as [Hu [Hf Hs]]. cbn [s_dep den] in *.
+    set (t := concat (f (lines_lf (den u)))) in *.
+    assert (V : forall z, good_fz t z -> exists d, fz_dep z = Some d) by (intros z G; apply (good_fz_views t z Ot G)).
+    destruct (c_isfz st) eqn:Ef; [|exists true, (SFilter f st u); fin].
+    destruct (c_fz st) as [z|] eqn:Hz.
+    + destruct (V z (frozen_known t st z Hs Hz)) as [d Vd]. rewrite Vd. exists d, (SFilter f st u). fin.
+    + destruct (s_lines_ok b u Hu) as [u' [E [Iu' Su]]]. rewrite E. cbn [option_map].
+      destruct (frozen_from_events b [WLines (f (lines_lf (den u)))]) as [z [Ez Gz]];
+        [rewrite text_of_lines; now apply text_ok_valid | rewrite text_of_lines; now apply read_text_ok |].
+      rewrite text_of_lines in Gz. destruct (V z Gz) as [d Vd].
+      unfold via_frozen, cached_get. rewrite Hz, Ez. cbn [obind]. rewrite Vd.
+      exists d, (SFilter f (cs_set_fz st z) u'). split; [reflexivity|]. split; [|cbn; auto].
+      cbn [Inv]. rewrite (skel_eq_den _ _ Su). split; [exact Iu'|]. split; [exact Hf|].
+      destruct Hs as [Hp _]. split; [exact Hp | right; exists z; auto].
+  - destruct H as [Hu [Hg Hs]]. cbn [s_dep den] in *. rewrite (den_run g u Hu Hg) in *.
+    set (t := g (den u)) in *.
+    assert (V : forall z, good_fz t z -> exists d, fz_dep z = Some d) by (intros z G; apply (good_fz_views t z Ot G)).
+    destruct (c_isfz st) eqn:Ef; [|exists true, (SRun g st u); fin].
+    destruct (c_fz st) as [z|] eqn:Hz.
+    + destruct (V z (frozen_known t st z Hs Hz)) as [d Vd]. rewrite Vd. exists d, (SRun g st u). fin.
+    + pose proof Hs as [[Hp|Hp] _]; rewrite Hp.
+      * destruct (s_file_ok b u Hu) as [u' [E [Iu' Su]]]. rewrite E. cbn [run_on]. fold t.
+        destruct (frozen_from_events b [WFd t]) as [z [Ez Gz]];
+          [rewrite text_of_fd; now apply text_ok_valid | rewrite text_of_fd; now apply read_text_ok |].
+        rewrite text_of_fd in Gz. destruct (V z Gz) as [d Vd].
+        unfold via_frozen, cached_get. rewrite Hz, Ez. cbn [obind]. rewrite Vd.
+        exists d, (SRun g (cs_set_fz st z) u'). split; [reflexivity|]. split; [|cbn; auto].
+        cbn [Inv]. rewrite (skel_eq_den _ _ Su). split; [exact Iu'|]. split; [exact Hg|].
+        destruct Hs as [Hp' _]. split; [exact Hp' | right; exists z; auto].
+      * assert (Ew2 : text_of [WLines (file_lines t)] = t).
+        { rewrite text_of_lines. unfold file_lines. rewrite concat_lines_lf. now apply read_text_ok. }
+        destruct (frozen_from_events b [WLines (file_lines t)]) as [z [Ez Gz]];
+          [rewrite Ew2; now apply text_ok_valid | rewrite Ew2; now apply read_text_ok |].
+        rewrite Ew2 in Gz. destruct (V z Gz) as [d Vd].
+        unfold via_frozen, cached_get. rewrite Hz, Ez. cbn [obind]. rewrite Vd.
+        exists d, (SRun g (cs_set_fz st z) u). split; [reflexivity|]. split; [|cbn; auto using skel_eq_refl].
+        cbn [Inv]. split; [exact Hu|]. split; [exact Hg|].
+        destruct Hs as [Hp' _]. split; [exact Hp' | right; exists z; auto].
+  - destruct H as [Hp [Hq [Fp [Fq Hs]]]]. cbn [s_dep den] in *.
+    set (t := den p ++ den q) in *.
+    assert (V : forall z, good_fz t z -> exists d, fz_dep z = Some d) by (intros z G; apply (good_fz_views t z Ot G)).
+    assert (I' : forall st' p' q', cs_ok t st' -> Inv p' -> Inv q' -> skel_eq p p' -> skel_eq q q' -> Inv (SConcat st' p' q')).
+    { intros st' p' q' Hs' Ip' Iq' Sp' Sq'. cbn [Inv]. rewrite (skel_eq_den _ _ Sp'), (skel_eq_den _ _ Sq').
+      rewrite (skel_eq_fd_free _ _ Sp'), (skel_eq_fd_free _ _ Sq'). auto. }
+    destruct (c_isfz st) eqn:Ef.
+    + destruct (c_fz st) as [z|] eqn:Hz.
+      * destruct (V z (frozen_known t st z Hs Hz)) as [d Vd]. rewrite Vd. exists d, (SConcat st p q). fin.
+      * destruct (s_write_ok b p Hp) as [wp [p2 [Ewp [Ip2 [Sp2 [Twp Nwp]]]]]].
+        destruct (s_write_ok b q Hq) as [wq [q2 [Ewq [Iq2 [Sq2 [Twq Nwq]]]]]].
+        rewrite Ewp, Ewq. cbn [oapp].
+        assert (Ew : text_of (wp ++ wq) = t) by (rewrite text_of_app, Twp, Twq; reflexivity).
+        destruct (frozen_from_events b (wp ++ wq)) as [z [Ez Gz]];
+          [rewrite Ew; now apply text_ok_valid | rewrite Ew; now apply read_text_ok |].
+        rewrite Ew in Gz. destruct (V z Gz) as [d Vd].
+        unfold via_frozen, cached_get. rewrite Hz, Ez. cbn [obind]. rewrite Vd.
+        exists d, (SConcat (cs_set_fz st z) p2 q2). split; [reflexivity|]. split; [|cbn; auto].
+        apply I'; auto. destruct Hs as [Hp' _]. split; [exact Hp' | right; exists z; auto].
+    + destruct (IHp Hp) as [d1 [p1 [E1 [Ip1 Sp1]]]]. destruct (IHq Hq) as [d2 [q1 [E2 [Iq1 Sq1]]]].
+      rewrite E1, E2. exists (d1 || d2), (SConcat st p1 q1). split; [reflexivity|]. split; [now apply I' | cbn; auto].
+Qed.
+
+Lemma s_freeze_ok : forall x, Inv x -> Inv (s_freeze x) /\ skel_eq x (s_freeze x).
+Proof.
+  induction x as [s|r|out st|f dep path isfz u IH|f st u IH|g st u IH|st p IHp q IHq]; cbn [Inv s_freeze]; intros H.
+  - split; [exact H | reflexivity].
+  - split; [exact H | reflexivity].
+  - destruct H as [Ho Hs]. split; [|reflexivity]. split; [exact Ho | now apply cs_ok_freeze].
+  - destruct H as [Hu [Hf Hp]]. destruct isfz.
+    + split; [cbn [Inv]; auto | apply skel_eq_refl].
+    + destruct (IH Hu) as [I S]. split.
+      * cbn [Inv]. rewrite (skel_eq_den _ _ S). auto.
+      * cbn. auto.
+  - destruct H as [Hu [Hf Hs]]. split.
+    + cbn [Inv]. split; [exact Hu|]. split; [exact Hf|]. now apply cs_ok_freeze.
+    + cbn. split; [reflexivity | apply skel_eq_refl].
+  - destruct H as [Hu [Hg Hs]]. split.
+    + cbn [Inv]. split; [exact Hu|]. split; [exact Hg|]. now apply cs_ok_freeze.
+    + cbn. split; [reflexivity | apply skel_eq_refl].
+  - destruct H as [Hp [Hq [Fp [Fq Hs]]]]. split.
+    + cbn [Inv]. repeat (split; [assumption|]). now apply cs_ok_freeze.
+    + cbn. split; apply skel_eq_refl.
+Qed.
+
+(** ** Access sequences *)
+Lemma step_ok : forall b a x, Inv x ->
+  exists o x', step b a x = (o, x') /\ obs_ok (den x) o = true /\ Inv x' /\ skel_eq x x'.
+Proof.
+  intros b a x H. destruct a; cbn [step].
+  - destruct (s_str_ok b x H) as [x' [E [I S]]]. rewrite E. exists (OStr (den x)), x'. cbn. rewrite text_eqb_refl. auto.
+  - destruct (s_lines_ok b x H) as [x' [E [I S]]]. rewrite E. exists (OLines (lines_lf (den x))), x'. cbn. rewrite lines_eqb_refl. auto.
+  - destruct (s_file_ok b x H) as [x' [E [I S]]]. rewrite E. exists (OFile (FText (den x))), x'. cbn. rewrite text_eqb_refl. auto.
+  - destruct (s_dep_ok b x H) as [d [x' [E [I S]]]]. rewrite E. exists (ODep d), x'. cbn. auto.
+  - destruct (s_freeze_ok x H) as [I S]. exists OFrozen, (s_freeze x). auto.
+Qed.
+
+Lemma run_ok : forall b accs x, Inv x ->
+  forallb (obs_ok (den x)) (fst (run b accs x)) = true /\ Inv (snd (run b accs x)) /\ skel_eq x (snd (run b accs x)).
+Proof.
+  intros b. induction accs as [|a accs IH]; intros x H; cbn [run].
+  - cbn. split; [reflexivity|]. split; [exact H | apply skel_eq_refl].
+  - destruct (step_ok b a x H) as [o [x' [E [O [I S]]]]]. rewrite E.
+    destruct (IH x' I) as [F [I2 S2]]. destruct (run b accs x') as [os x''] eqn:Er. cbn [fst snd] in *.
+    split.
+    + cbn [forallb]. rewrite O. rewrite (skel_eq_den _ _ S) in F. exact F.
+    + split; [exact I2 | eapply skel_eq_trans; eassumption].
+Qed.
+
+(** ** The guard on the INPUT and the initial state *)
+(** every line transformation and every external program of the expression is admitted; the parts of
+    a concatenation do not let a child process write to the descriptor of the output file (known
+    finding KF-C14-3: the file object is not flushed before) *)
+Fixpoint lfs_ok (x : src) : Prop :=
+  match x with
+  | SStr _ | SFile _ | SProg _ _ => True
+  | SLines f _ _ _ u => lf_ok f /\ lfs_ok u
+  | SFilter f _ u => lf_ok f /\ lfs_ok u
+  | SRun g _ u => g_ok g /\ lfs_ok u
+  | SConcat _ p q => lfs_ok p /\ lfs_ok q /\ fd_free p = true /\ fd_free q = true
+  end.
+
+(** every text of the expression is admitted *)
+Fixpoint leaves_ok (x : src) : bool :=
+  match x with
+  | SStr s => text_ok s
+  | SFile r => text_ok r
+  | SProg out _ => text_ok out
+  | SLines _ _ _ _ u => leaves_ok u
+  | SFilter _ _ u => leaves_ok u
+  | SRun _ _ u => leaves_ok u
+  | SConcat _ p q => leaves_ok p && leaves_ok q
+  end.
+
+(** the state of newly created objects: nothing cached, nothing frozen *)
+Fixpoint fresh (x : src) : Prop :=
+  match x with
+  | SStr _ | SFile _ => True
+  | SProg _ st => st = cs0
+  | SLines _ _ path isfz u => path = None /\ isfz = false /\ fresh u
+  | SFilter _ st u => st = cs0 /\ fresh u
+  | SRun _ st u => st = cs0 /\ fresh u
+  | SConcat st p q => st = cs0 /\ fresh p /\ fresh q
+  end.
+
+Lemma fresh_inv : forall x, fresh x -> leaves_ok x = true -> lfs_ok x -> Inv x.
+Proof.
+  induction x as [s|r|out st|f dep path isfz u IH|f st u IH|g st u IH|st p IHp q IHq];
+    cbn [fresh leaves_ok lfs_ok Inv]; intros F L K.
+  - exact L.
+  - exact L.
+  - subst st. split; [exact L | apply cs_ok_cs0].
+  - destruct F as [-> [-> F]]. destruct K as [K1 K2]. auto.
+  - destruct F as [-> F]. destruct K as [K1 K2]. split; [auto|]. split; [exact K1 | apply cs_ok_cs0].
+  - destruct F as [-> F]. destruct K as [K1 K2]. split; [auto|]. split; [exact K1 | apply cs_ok_cs0].
+  - destruct F as [-> [F1 F2]]. destruct K as [K1 [K2 [K3 K4]]]. apply andb_true_iff in L as [L1 L2].
+    split; [auto|]. split; [auto|]. split; [exact K3|]. split; [exact K4 | apply cs_ok_cs0].
+Qed.
+
+Theorem views_agree : forall x b accs,
+  fresh x -> leaves_ok x = true -> lfs_ok x ->
+  forallb (obs_ok (den x)) (fst (run b accs x)) = true.
+Proof. intros x b accs F L K. apply run_ok. now apply fresh_inv. Qed.
+
+(** ** Admitted line transformations: the ones the correspondence cases use *)
+Lemma lf_ok_identity : lf_ok lf_identity.
+Proof. intros ls H. exact H. Qed.
+
+Lemma wf_lines_tail : forall l ls, wf_lines (l :: ls) = true -> wf_lines ls = true.
+Proof. intros l [|l2 ls] H; [reflexivity|]. cbn [wf_lines] in H. apply andb_true_iff in H. tauto. Qed.
+
+Lemma wf_lines_head_full : forall l l2 ls, wf_lines (l :: l2 :: ls) = true -> is_full_line l = true.
+Proof. intros l l2 ls H. cbn [wf_lines] in H. apply andb_true_iff in H. tauto. Qed.
+
+(** Dropping elements of a well-formed line sequence keeps it well formed. *)
+Lemma wf_lines_filter_from : forall p ls n, wf_lines ls = true -> wf_lines (filter_from p n ls) = true.
+Proof.
+  intros p. induction ls as [|l ls IH]; intros n H; [reflexivity|]. cbn [filter_from].
+  pose proof (wf_lines_tail l ls H) as Ht. destruct (p n (rstrip_nl l)).
+  - destruct ls as [|l2 ls].
+    + cbn [filter_from]. exact H.
+    + apply wf_lines_cons_full; [eapply wf_lines_head_full; exact H | apply IH; exact Ht].
+  - apply IH; exact Ht.
+Qed.
+
+Lemma forallb_filter_from : forall (q : text -> bool) p ls n, forallb q ls = true -> forallb q (filter_from p n ls) = true.
+Proof.
+  intros q p. induction ls as [|l ls IH]; intros n H; [reflexivity|]. cbn [filter_from].
+  cbn in H. apply andb_true_iff in H as [H1 H2]. destruct (p n (rstrip_nl l)).
+  - cbn. rewrite H1. now apply IH.
+  - now apply IH.
+Qed.
+
+Lemma lf_ok_filter : forall p, lf_ok (lf_filter p).
+Proof.
+  intros p ls [H1 H2]. split; [now apply wf_lines_filter_from | now apply forallb_filter_from].
+Qed.
+
+(** char-case -to-upper on ASCII letters: a character-wise map that neither creates nor removes
+    "\n" and maps admitted characters to admitted characters. *)
+Definition char_map_ok (g : char -> char) : Prop :=
+  (forall c, N.eqb (g c) NL = N.eqb c NL) /\
+  (forall c, is_exotic_break c = false -> is_exotic_break (g c) = false) /\
+  (forall c, valid_char c = true -> valid_char (g c) = true).
+
+Lemma forallb_map' : forall {A B} (q : B -> bool) (g : A -> B) l, forallb q (map g l) = forallb (fun x => q (g x)) l.
+Proof. intros. induction l as [|x l IH]; [reflexivity|]. cbn. now rewrite IH. Qed.
+
+Lemma forallb_ext' : forall {A} (p q : A -> bool) l, (forall x, p x = q x) -> forallb p l = forallb q l.
+Proof. intros. induction l as [|x l IH]; [reflexivity|]. cbn. now rewrite H, IH. Qed.
+
+Lemma is_full_line_map : forall g l, (forall c, N.eqb (g c) NL = N.eqb c NL) -> is_full_line (map g l) = is_full_line l.
+Proof.
+  intros g l Hg. induction l as [|c l IH]; [reflexivity|]. destruct l as [|d l].
+  - cbn. apply Hg.
+  - change (map g (c :: d :: l)) with (g c :: map g (d :: l)).
+    change (is_full_line (c :: d :: l)) with (negb (N.eqb c NL) && is_full_line (d :: l)).
+    cbn [map] in *. change (is_full_line (g c :: g d :: map g l)) with (negb (N.eqb (g c) NL) && is_full_line (g d :: map g l)).
+    now rewrite Hg, IH.
+Qed.
+
+Lemma is_partial_line_map : forall g l, (forall c, N.eqb (g c) NL = N.eqb c NL) -> is_partial_line (map g l) = is_partial_line l.
+Proof.
+  intros g l Hg. destruct l as [|c l]; [reflexivity|]. unfold is_partial_line. cbn [map].
+  change (g c :: map g l) with (map g (c :: l)).
+  rewrite forallb_map'. apply forallb_ext'. intros x. now rewrite Hg.
+Qed.
+
+Lemma wf_lines_map : forall g ls, (forall c, N.eqb (g c) NL = N.eqb c NL) -> wf_lines (map (map g) ls) = wf_lines ls.
+Proof.
+  intros g ls Hg. induction ls as [|l ls IH]; [reflexivity|]. destruct ls as [|l2 ls].
+  - cbn. now rewrite is_full_line_map, is_partial_line_map.
+  - change (wf_lines (l :: l2 :: ls)) with (is_full_line l && wf_lines (l2 :: ls)).
+    cbn [map] in *. change (wf_lines (map g l :: map g l2 :: map (map g) ls)) with (is_full_line (map g l) && wf_lines (map g l2 :: map (map g) ls)).
+    now rewrite is_full_line_map, IH.
+Qed.
+
+Lemma text_ok_map : forall g t, char_map_ok g -> text_ok t = true -> text_ok (map g t) = true.
+Proof.
+  intros g t [_ [He Hv]] H. unfold text_ok in *. apply andb_true_iff in H as [H1 H2]. apply andb_true_iff. split.
+  - unfold no_exotic_breaks in *. rewrite forallb_map'. rewrite forallb_forall in *. intros c Hc.
+    apply negb_true_iff, He, negb_true_iff, H1, Hc.
+  - unfold valid_text in *. rewrite forallb_map'. rewrite forallb_forall in *. intros c Hc. apply Hv, H2, Hc.
+Qed.
+
+Lemma lf_ok_char_map : forall g, char_map_ok g -> lf_ok (map (map g)).
+Proof.
+  intros g Hg ls [H1 H2]. split.
+  - rewrite wf_lines_map; [exact H1 | apply Hg].
+  - rewrite forallb_map'. rewrite forallb_forall in *. intros l Hl. apply text_ok_map; [exact Hg | apply H2, Hl].
+Qed.
+
+Lemma ascii_upper_cases : forall c, ascii_upper c = c \/ (97 <= c <= 122 /\ ascii_upper c = c - 32).
+Proof.
+  intros c. unfold ascii_upper. destruct ((97 <=? c) && (c <=? 122)) eqn:E; [right | left; reflexivity].
+  split; [lia | reflexivity].
+Qed.
+
+Lemma char_map_ok_upper : char_map_ok ascii_upper.
+Proof.
+  split; [|split]; intros c.
+  - destruct (ascii_upper_cases c) as [->|[R ->]]; [reflexivity|]. unfold NL. lia.
+  - intros H. destruct (ascii_upper_cases c) as [->|[R ->]]; [exact H|].
+    unfold is_exotic_break, is_break, NL. lia.
+  - intros H. destruct (ascii_upper_cases c) as [->|[R ->]]; [exact H|]. unfold valid_char. lia.
+Qed.
+
+Lemma lf_ok_upper : lf_ok lf_upper.
+Proof. apply lf_ok_char_map, char_map_ok_upper. Qed.
+
+
+(** the external programs the correspondence cases use *)
+Lemma g_ok_cat : g_ok g_cat.
+Proof. intros r H. exact H. Qed.
+
+Lemma char_map_ok_swap : char_map_ok swap_ab.
+Proof.
+  assert (C : forall c, swap_ab c = c \/ (c = 97 /\ swap_ab c = 98) \/ (c = 98 /\ swap_ab c = 97)).
+  { intros c. unfold swap_ab. destruct (c =? 97) eqn:E1; [right; left; split; [lia | reflexivity]|].
+    destruct (c =? 98) eqn:E2; [right; right; split; [lia | reflexivity] | left; reflexivity]. }
+  split; [|split]; intros c; destruct (C c) as [->|[[-> ->]|[-> ->]]]; auto.
+Qed.
+
+Lemma g_ok_tr : g_ok g_tr_ab.
+Proof. intros r H. apply text_ok_map; [apply char_map_ok_swap | exact H]. Qed.
+
+Lemma g_ok_tail : g_ok g_tail2.
+Proof.
+  intros r H. unfold g_tail2. rewrite text_ok_concat.
+  pose proof (good_lines_of_text r H) as [_ G]. destruct (lines_lf r) as [|l ls]; [reflexivity|].
+  cbn [skipn]. cbn in G. apply andb_true_iff in G. tauto.
+Qed.
+
+(** ** Expressions of the modelled surface language, SOURCE [-transformed-by T], satisfy the guard
+    as soon as their texts and external programs do. *)
+Definition atom_ok (a : tatom) : Prop := match a with TRun g => g_ok g | _ => True end.
+Definition trans_ok (t : trans) : Prop := match t with TAtom a => atom_ok a | TSeq l => Forall atom_ok l end.
+Definition otrans_ok (t : option trans) : Prop := match t with Some t => trans_ok t | None => True end.
+
+Lemma transform_atom_guard : forall a x, atom_ok a -> fresh x -> lfs_ok x ->
+  fresh (transform_atom a x) /\ lfs_ok (transform_atom a x) /\ leaves_ok (transform_atom a x) = leaves_ok x.
+Proof.
+  intros a x A F K. destruct a; cbn [transform_atom fresh lfs_ok leaves_ok].
+  - split; [auto|]. split; [|reflexivity]. split; [apply lf_ok_identity | exact K].
+  - split; [auto|]. split; [|reflexivity]. split; [apply lf_ok_upper | exact K].
+  - split; [auto|]. split; [|reflexivity]. split; [apply lf_ok_filter | exact K].
+  - split; [auto|]. split; [|reflexivity]. split; [exact A | exact K].
+Qed.
+
+Lemma fold_atoms_guard : forall l x, Forall atom_ok l -> fresh x -> lfs_ok x ->
+  fresh (fold_left (fun m a => transform_atom a m) l x) /\ lfs_ok (fold_left (fun m a => transform_atom a m) l x) /\
+  leaves_ok (fold_left (fun m a => transform_atom a m) l x) = leaves_ok x.
+Proof.
+  induction l as [|a l IH]; intros x A F K; cbn [fold_left]; [auto|].
+  inversion A as [|? ? A1 A2]; subst.
+  destruct (transform_atom_guard a x A1 F K) as [F' [K' L']]. destruct (IH _ A2 F' K') as [F2 [K2 L2]].
+  repeat split; auto. congruence.
+Qed.
+
+Lemma Forall_filter : forall {A} (P : A -> Prop) (f : A -> bool) l, Forall P l -> Forall P (filter f l).
+Proof.
+  intros A P f l H. induction H as [|x l Hx Hl IH]; cbn; [constructor|]. destruct (f x); [constructor; assumption | assumption].
+Qed.
+
+Lemma transform_guard : forall t x, trans_ok t -> fresh x -> lfs_ok x ->
+  fresh (transform t x) /\ lfs_ok (transform t x) /\ leaves_ok (transform t x) = leaves_ok x.
+Proof.
+  intros t x A F K. destruct t as [a|l]; cbn [transform trans_ok] in *.
+  - now apply transform_atom_guard.
+  - apply fold_atoms_guard; [now apply Forall_filter | exact F | exact K].
+Qed.
+
+Lemma build_guard : forall base t, otrans_ok t -> fresh base -> lfs_ok base ->
+  fresh (build base t) /\ lfs_ok (build base t) /\ leaves_ok (build base t) = leaves_ok base.
+Proof.
+  intros base t A F K. destruct t as [t|]; cbn [build]; [now apply transform_guard | tauto].
 Qed.
